@@ -173,6 +173,119 @@ pub fn pat_vars(p: &Pat, out: &mut Vec<u32>) {
     }
 }
 /// `scoped`: keep FILTER/BIND variables certainly bound (mostly well-scoped stream) or allow maybe-bound ones
+fn other<'a>(rng: &mut Rng, pool: &'a [String], cur: &str) -> String {
+    let cands: Vec<&String> = pool.iter().filter(|x| x.as_str() != cur).collect();
+    if cands.is_empty() { cur.to_string() } else { (*rng.pick(&cands)).clone() }
+}
+fn near_cond(rng: &mut Rng, u: &Universe, c: &Cond) -> Cond {
+    match c {
+        Cond::Cmp(v, op, rhs) => {
+            if rng.chance(1, 2) {
+                let nop = other(rng, &["eq", "ne", "lt", "le", "gt", "ge"].map(|x| x.to_string()), op);
+                Cond::Cmp(*v, nop, rhs.clone())
+            } else {
+                match rhs {
+                    Opnd::Const(k) => Cond::Cmp(*v, op.clone(), Opnd::Const(if u.iris.contains(k) { other(rng, &u.iris, k) } else { other(rng, &["0", "1", "4", "-2", "7"].map(|x| x.to_string()), k) })),
+                    Opnd::Var(_) => Cond::Not(Box::new(c.clone())),
+                }
+            }
+        }
+        Cond::Not(a) => Cond::Not(Box::new(near_cond(rng, u, a))),
+        Cond::And(a, b) => {
+            if rng.chance(1, 3) { Cond::Or(a.clone(), b.clone()) } else if rng.chance(1, 2) { Cond::And(Box::new(near_cond(rng, u, a)), b.clone()) } else { Cond::And(a.clone(), Box::new(near_cond(rng, u, b))) }
+        }
+        Cond::Or(a, b) => {
+            if rng.chance(1, 3) { Cond::And(a.clone(), b.clone()) } else if rng.chance(1, 2) { Cond::Or(Box::new(near_cond(rng, u, a)), b.clone()) } else { Cond::Or(a.clone(), Box::new(near_cond(rng, u, b))) }
+        }
+    }
+}
+/// a copy of `p` with exactly one small detail changed (a constant, a graph name, a VALUES cell, a solution modifier, a
+/// comparison); the set of variables the pattern can bind is unchanged except when a projection item is dropped
+pub fn near_copy(rng: &mut Rng, u: &Universe, p: &Pat) -> Pat {
+    match p {
+        Pat::Unit => Pat::Unit,
+        Pat::Bgp(tps) => {
+            let mut t = tps.clone();
+            if t.is_empty() {
+                return Pat::Bgp(t);
+            }
+            let k = rng.below(t.len());
+            let (s, pp, o) = t[k].clone();
+            let consts: Vec<u8> = [(&s, 0u8), (&pp, 1u8), (&o, 2u8)].iter().filter(|(x, _)| matches!(x, Term::Const(_))).map(|(_, i)| *i).collect();
+            if consts.is_empty() {
+                // swap subject and object variables
+                t[k] = (o, pp, s);
+            } else {
+                match *rng.pick(&consts) {
+                    0 => if let Term::Const(c) = &s { t[k].0 = Term::Const(other(rng, &u.iris, c)) },
+                    1 => if let Term::Const(c) = &pp { t[k].1 = Term::Const(other(rng, &u.preds, c)) },
+                    _ => if let Term::Const(c) = &o { t[k].2 = Term::Const(if u.lits.contains(c) { other(rng, &u.lits, c) } else { other(rng, &u.iris, c) }) },
+                }
+            }
+            Pat::Bgp(t)
+        }
+        Pat::Group(es) | Pat::Union(es) => {
+            let mut es2 = es.clone();
+            // prefer a site that is not a BIND (whose target must stay fresh)
+            let sites: Vec<usize> = (0..es2.len()).filter(|i| !matches!(es2[*i], Pat::Bind(..) | Pat::Unit)).collect();
+            if !sites.is_empty() {
+                let k = *rng.pick(&sites);
+                es2[k] = near_copy(rng, u, &es2[k]);
+            }
+            if matches!(p, Pat::Group(_)) { Pat::Group(es2) } else { Pat::Union(es2) }
+        }
+        Pat::Graph(g, inner) => {
+            if rng.chance(1, 2) {
+                let g2 = match g {
+                    GTerm::Named(n) => GTerm::Named(other(rng, &u.graphs, n)),
+                    other_g => other_g.clone(),
+                };
+                Pat::Graph(g2, inner.clone())
+            } else {
+                Pat::Graph(g.clone(), Box::new(near_copy(rng, u, inner)))
+            }
+        }
+        Pat::Filter(c) => Pat::Filter(near_cond(rng, u, c)),
+        Pat::Bind(a, v) => Pat::Bind(a.clone(), *v),
+        Pat::Values(vars, rows) => {
+            let mut r = rows.clone();
+            if !r.is_empty() && !vars.is_empty() {
+                let i = rng.below(r.len());
+                let j = rng.below(vars.len());
+                r[i][j] = match &r[i][j] {
+                    None => Some(rng.pick(&u.iris).clone()),
+                    Some(c) => if rng.chance(1, 4) { None } else if u.lits.contains(c) { Some(other(rng, &u.lits, c)) } else { Some(other(rng, &u.iris, c)) },
+                };
+            }
+            Pat::Values(vars.clone(), r)
+        }
+        Pat::Sub(spec, inner) => {
+            if rng.chance(1, 4) {
+                return Pat::Sub(spec.clone(), Box::new(near_copy(rng, u, inner)));
+            }
+            let mut sp = spec.clone();
+            match rng.below(4) {
+                0 => sp.limit = match sp.limit { None => Some(0), Some(0) => if rng.chance(1, 2) { None } else { Some(50) }, Some(_) => Some(0) },
+                1 => sp.distinct = !sp.distinct,
+                2 => match &mut sp.proj {
+                    Some(items) if items.len() > 1 && sp.group_vars.is_empty() && sp.order.is_empty() => { items.pop(); }
+                    Some(items) => {
+                        for it in items.iter_mut() {
+                            if let Item::Agg(k, _, _) = it {
+                                *k = other(rng, &["sum", "min", "max"].map(|x| x.to_string()), k);
+                            }
+                        }
+                    }
+                    None => sp.distinct = !sp.distinct,
+                },
+                _ => {
+                    if sp.order.is_empty() { sp.limit = match sp.limit { None => Some(0), _ => None } } else { sp.order[0].1 = !sp.order[0].1; sp.limit = match sp.limit { None => Some(0), _ => None } }
+                }
+            }
+            Pat::Sub(sp, Box::new((**inner).clone()))
+        }
+    }
+}
 pub fn gen_group(rng: &mut Rng, u: &Universe, nvars: u32, depth: u32, scoped: bool, fresh: &mut u32) -> Pat {
     let n = if depth >= 2 { rng.range(1, 3) } else { rng.range(1, 2) };
     let mut elems: Vec<Pat> = Vec::new();
@@ -183,7 +296,14 @@ pub fn gen_group(rng: &mut Rng, u: &Universe, nvars: u32, depth: u32, scoped: bo
             Pat::Bgp((0..m).map(|_| gen_triple(rng, u, nvars)).collect())
         } else if k < 60 {
             let b = rng.range(2, 3);
-            Pat::Union((0..b).map(|_| gen_group(rng, u, nvars, depth - 1, scoped, fresh)).collect())
+            let mut branches: Vec<Pat> = (0..b).map(|_| gen_group(rng, u, nvars, depth - 1, scoped, fresh)).collect();
+            if rng.chance(1, 3) {
+                // sibling branches that differ in one detail only (anything keyed on a lossy summary of a sub-plan confuses them)
+                let c = near_copy(rng, u, &branches[0]);
+                let last = branches.len() - 1;
+                branches[last] = c;
+            }
+            Pat::Union(branches)
         } else if k < 72 {
             let g = match rng.below(3) {
                 0 => GTerm::Var(rng.below(nvars as usize) as u32),
@@ -227,6 +347,14 @@ pub fn gen_group(rng: &mut Rng, u: &Universe, nvars: u32, depth: u32, scoped: bo
             Pat::Sub(spec, Box::new(inner))
         };
         elems.push(e);
+    }
+    if depth >= 1 && rng.chance(1, 10) {
+        // a joined near-copy of one of the blocks
+        let k = rng.below(elems.len());
+        if !matches!(elems[k], Pat::Bgp(_)) {
+            let c = near_copy(rng, u, &elems[k]);
+            elems.push(c);
+        }
     }
     // BIND / FILTER over the group's variables
     let mut vs = Vec::new();
